@@ -155,8 +155,8 @@ class FnView:
     def guards(self, bb):
         return guards_of(self.fn, bb, self.lits)
 
-    def arg(self, cs, i):
-        return self.terms.operand(cs.args[i])
+    def arg(self, cs, i, depth=24):
+        return self.terms.operand(cs.args[i], depth)
 
     def guard_descs(self, bb):
         return [l.desc for l in self.guards(bb)]
@@ -257,7 +257,7 @@ def ownership_closed(facts, writers, owners):
 # ------------------------------------------------------------------ R-SIB
 from ylib import skel as SK  # noqa: E402
 
-V12 = [(r"V[12]\b", "V#"), (r"_v[12]\b", "_v#"), (r"v[12]$", "v#")]
+V12 = [(r"V[12]\b", "V#"), (r"_v[12]\b", "_v#"), (r"_v[12]_", "_v#_"), (r"v[12]$", "v#")]
 
 
 def sibling(R, rule, facts, path_a, path_b, subs=V12, allowed=(), facts_b=None):
